@@ -45,6 +45,13 @@ EXCLUDE = {
 }
 
 
+# fixed input of the class (known_findings.json probe): `2 >> a` with a = 3 -> @guppy 0, comptime 9
+PROBES = {
+    "reflected.rshift": {"expr": {"k": "bin", "op": ">>", "l": {"k": "c", "v": "2", "t": "int"},
+                                  "r": {"k": "p", "n": "a", "t": "int"}, "t": "int"}, "inputs": [{"a": "3"}]},
+}
+
+
 def active_exclusions():
     env = os.environ.get("VERIF_C21_EXCLUDE", "").strip()
     if env == "none":
